@@ -31,6 +31,7 @@ func init() {
 		"m.int":         exMInt,
 		"m.intdec":      exMIntDec,
 		"go.m.smallkey": goMSmallKey,
+		"go.m.expiry":   goMExpiry,
 		"m.bodyx":       exMBodyX,
 		"m.extn":        exMExtn,
 		"go.m.ext":      goMExt,
@@ -941,6 +942,91 @@ func goMSmallKey(a []string) string {
 	return "ok"
 }
 
+// bodyValidUntil reads the expiry field of a signed body by its fixed offset (highload: the upper 32 bits of the
+// query id)
+func bodyValidUntil(v wallet.Version, body *boc.Cell) (uint32, error) {
+	c := tableCell(cellTable(body))
+	var skip int
+	switch v {
+	case wallet.V3R1, wallet.V3R2, wallet.V4R1, wallet.V4R2, wallet.HighLoadV2R2:
+		skip = 512 + 32
+	case wallet.V5R1:
+		skip = 32 + 32
+	case wallet.V5Beta:
+		skip = 32 + 80
+	default:
+		return 0, fmt.Errorf("version cannot send")
+	}
+	if err := c.Skip(skip); err != nil {
+		return 0, err
+	}
+	x, err := c.ReadUint(32)
+	return uint32(x), err
+}
+
+// go.m.expiry <ver> <seed> <lifetime seconds|_>: the VALID-UNTIL of what Send / SendV2 hands to the chain, and of
+// CreateMessageBody without an explicit expiry: now + the wallet's message lifetime — the default 3 minutes, or the
+// value given with WithMessageLifetime —, hence in the future; never in the past, never the default when another
+// lifetime was asked for. Tolerance 3 s around the two clock readings taken before and after the call.
+func goMExpiry(a []string) string {
+	ver := wallet.Version(atoi(a[0]))
+	life := int64(wallet.DefaultMessageLifetime / time.Second)
+	var opts []wallet.Option
+	if a[2] != "_" {
+		life = atoi64(a[2])
+		opts = append(opts, wallet.WithMessageLifetime(time.Duration(life)*time.Second))
+	}
+	if life != 180 && a[2] == "_" {
+		return "FAIL default-lifetime-is-not-3-minutes"
+	}
+	window := func(path string, before, after int64, vu uint32) string {
+		if int64(vu) <= after {
+			return fmt.Sprintf("FAIL %s-message-already-expired valid_until=%d now=%d", path, vu, after)
+		}
+		if int64(vu) < before+life-3 || int64(vu) > after+life+3 {
+			return fmt.Sprintf("FAIL %s-expiry-is-not-now-plus-lifetime valid_until-now=%d lifetime=%d", path, int64(vu)-before, life)
+		}
+		return ""
+	}
+	sp := sendSpec{kind: "m", amount: 5, mode: 3}
+	// 1. Send (-> SendV2 -> RawSendV2)
+	chain := &scriptedChain{state: acctState("none")}
+	w, err := wallet.New(keyFromSeed(a[1]), ver, chain, opts...)
+	if err != nil {
+		return "FAIL new"
+	}
+	before := time.Now().Unix()
+	if err := w.Send(context.Background(), sp.sendable()); err != nil || len(chain.sent) != 1 {
+		return "FAIL send-refused"
+	}
+	after := time.Now().Unix()
+	si, err := parseSent(chain.sent[0])
+	if err != nil {
+		return "FAIL parse"
+	}
+	vu, err := bodyValidUntil(ver, si.body)
+	if err != nil {
+		return "FAIL read-expiry"
+	}
+	if r := window("send", before, after, vu); r != "" {
+		return r
+	}
+	// 2. CreateMessageBody without ValidUntil
+	before = time.Now().Unix()
+	body, err := w.CreateMessageBody(wallet.MessageConfig{Seqno: 1, V5MsgType: wallet.V5MsgTypeSignedExternal}, sp.sendable())
+	if err != nil {
+		return "FAIL create-body"
+	}
+	after = time.Now().Unix()
+	if vu, err = bodyValidUntil(ver, body); err != nil {
+		return "FAIL read-expiry"
+	}
+	if r := window("create-body", before, after, vu); r != "" {
+		return r
+	}
+	return "ok"
+}
+
 // intLine: the m.int arguments of a spec
 func (s sendSpec) intLine() []string {
 	body, code, data, comment := s.parts()
@@ -1232,6 +1318,11 @@ func genC14(g *h.G) {
 		}
 		g.Count("limit_small_order_key")
 		g.Emit("go.m.smallkey", vs, fmt.Sprint(g.Rng.Intn(1<<30)))
+		// the expiry of the Send path: default lifetime, 1 minute, 1 hour
+		for _, lf := range []string{"_", "60", "3600"} {
+			g.Count("send_expiry_lifetime_" + lf)
+			g.Emit("go.m.expiry", vs, h.Hex(g.Bytes(32)), lf)
+		}
 		// limits: both sides of the boundary, through the oracle and through the model
 		for _, n := range []int{max - 1, max, max + 1, max + 50} {
 			g.Count(fmt.Sprintf("limit_%s", map[bool]string{true: "within", false: "over"}[n <= max]))
